@@ -1,8 +1,8 @@
 """C15 — maps use Go key equality for every comparable key type.
 
-Proof:  GV.Props.C15 (join/escape injectivity, keyFor a = keyFor b <-> Go == under explicit hypotheses,
-        proved counterexamples for the three recorded defects, JS-Map encoding refines the abstract map for
-        every history, range-loop rule).
+Proof:  GV.Props.C15 (join/escape injectivity, keyFor a = keyFor b <-> Go == at full strength given the stated
+        hypothesis on Number::toString, JS-Map encoding refines the abstract map for every history, range-loop rule).
+        The model mirrors the prelude as repaired by fixes/C15-{complex-nan,float-array-nan,iface-type-id}-key.patch.
 Tie a:  the REAL keyFor functions of compiler/prelude/types.js under Node (types built with the real prelude
         constructors) vs the Lean transcription (key strings, I-tie) and vs Go == (Lean spec) on generated pairs.
 Tie b:  compiled Go programs running generated map histories (incl. range with deletion/insertion) —
@@ -14,12 +14,11 @@ from . import common as C
 from . import progs
 
 THEOREMS = [
-    "esc_single_pass", "join_esc_injective", "decNat_injective", "decInt_injective", "numStr_injective",
-    "key_injective_partial", "key_injective_partial_sat",
-    "key_injective_counterexample_complex_nan", "key_injective_counterexample_float_array_nan",
-    "key_injective_counterexample_iface_type_string", "not_key_injective",
-    "idKey_injective", "keyFor_state_mono",
-    "map_refines", "map_refines_from", "map_refines_nil", "map_refines_counterexample",
+    "esc_single_pass", "join_esc_injective", "decNat_injective", "decInt_injective", "numStr_injective", "toStringOK_halfFs",
+    "key_injective", "key_injective_halfFs", "key_injective_former_witnesses",
+    "old_complex_nan_collides", "old_float_array_nan_collides", "old_iface_type_string_collides",
+    "idKey_injective", "keyFor_state_mono", "state_inv_init",
+    "map_refines", "map_refines_from", "map_refines_nil",
     "range_visits_increasing", "range_visits_nodup", "range_skips_deleted", "range_visit_live", "range_spec", "range_readonly",
 ]
 
@@ -867,7 +866,50 @@ def split_cases(trace):
     return res, rest
 
 
+BLANK_SRC = r"""package main
+
+type K struct {
+	_ int
+	a int
+}
+
+func main() {
+	m := map[K]int{}
+	m[K{5, 1}] = 1
+	m[K{6, 1}] = 2
+	println("blank-named", len(m), m[K{7, 1}])
+	n := map[struct {
+		_ int
+		a int
+	}]int{}
+	n[struct {
+		_ int
+		a int
+	}{5, 1}] = 1
+	n[struct {
+		_ int
+		a int
+	}{6, 1}] = 2
+	println("blank-anon", len(n))
+}
+"""
+
+
+def run_blank_witness(chk):
+    """Blank struct fields are not modelled in Lean; the witness of the recorded defect is replayed GopherJS vs native Go."""
+    res = progs.run_jobs([{"id": "c15blank", "files": {"main.go": BLANK_SRC}, "variants": ["plain"], "native": True, "timeout": 600}])[0]
+    nat = progs.observe_native(res["runs"]["native"])
+    js = progs.observe_js(res["runs"]["plain"])
+    if nat[1] != "exit0":
+        raise RuntimeError("blank-field witness does not run natively: %r" % (nat,))
+    chk.add_case("programs", "c15blank", True, "prog-case:blank-witness")
+    if js != nat:
+        sig = "C15 program blank-field-key gopherjs!=go" if js[1] == "exit0" and js[0][1:] == nat[0][1:] and js[0][:1] == ["blank-named 2 0"] else None
+        chk.add_mismatch("programs", "c15blank (struct key with a blank field set by a positional literal)", js[0], nat[0], signature=sig)
+
+
 def run_programs(chk, tier):
+    run_blank_witness(chk)
     rng = chk.rng
     nprog = 30 if tier == "thorough" else 8
     ncases = 10 if tier == "thorough" else 7
@@ -932,7 +974,7 @@ def run_programs(chk, tier):
                 if impl != spec:
                     first = next((i for i in range(max(len(impl), len(spec))) if i >= len(impl) or i >= len(spec) or impl[i] != spec[i]), 0)
                     sig = None
-                    if c["feat"] is not None and impl == model:
+                    if c["feat"] == "named-pointer-conversion" and impl == model:
                         sig = "C15 program keytype-feature=%s gopherjs=model!=go" % c["feat"]
                     chk.add_mismatch("programs", opid + " step=%d %r" % (first, c["steps"][first] if first < len(c["steps"]) else None),
                                      impl[first:first + 2], spec[first:first + 2], signature=sig, model=model[first:first + 2])
@@ -956,7 +998,8 @@ def pair_signature(meta):
         _, w, a, b = m
         relax = set()
         if impl == "1" and spec == "0" and go_eq(w, a, b, relax) and len(relax) == 1:
-            return "C15 keyFor collide class=%s" % sorted(relax)[0]
+            # the three classes repaired by fixes/C15-*.patch; no longer listed, so they are violations if they come back
+            return "C15 keyFor collide class=%s (repaired defect is back)" % sorted(relax)[0]
         return None
     return sig
 
@@ -972,6 +1015,15 @@ def pair_kind(meta):
 
 def run_pairs(chk, tier):
     ops, meta = gen_pair_ops(chk.rng, tier)
+    # pre-pass: the prelude's typ.id of every registered type (the repaired $ifaceKeyFor puts it into the key);
+    # the same deftype sequence gives the same ids in the main pass
+    defs = [o for o, m in zip(ops, meta) if m and m[0] == "deftype"]
+    tids = [o.split()[2] for o in defs]
+    pre = C.run_node(["mapkey reset"] + defs + ["mapkey typeid %s" % t for t in tids])
+    jsid = dict(zip(tids, pre[1 + len(defs):]))
+    if not all(v.isdigit() for v in jsid.values()):
+        raise RuntimeError("C15 harness failure: typeid pre-pass answered %r" % (pre[-3:],))
+    ops = [o + " " + jsid[o.split()[2]] if (m and m[0] == "deftype") else o for o, m in zip(ops, meta)]
     impl = C.run_node(ops)
     model = C.run_driver("C15", ops)
     bad = [(o, a, b) for o, a, b in zip(ops, impl, model) if a.startswith("runner-error") or a.startswith("bad") or b.startswith("bad")]
@@ -1013,8 +1065,10 @@ def run(tier, seed):
                    "GV.Model.MapKey / GV.Model.GoMap are hand transcriptions of types.js / numeric.js / statements.go / expressions.go, tied by these runs",
                    "GV.Spec.MapKey.goEq = my reading of the Go spec (validated against native Go by the compiled programs)",
                    "ECMAScript Map semantics (insertion order, live iterator, SameValueZero) as modelled in GV.Model.GoMap.JMap"]
-    chk.assumptions = ["finite float keys are modelled as multiples of 1/2 (String(f) exact); Number::toString injectivity for other doubles is assumed",
-                       "type strings of dynamic types contain no `$` (hypothesis of key_injective_partial)",
+    chk.assumptions = ["Number::toString on finite non-zero doubles is injective, prints no `$` and none of NaN/Infinity/-Infinity/0: explicit hypothesis "
+                       "ToStringOK of key_injective / map_refines (proved for the driver's instance halfFs: multiples of 1/2)",
+                       "the dynamic type of an interface value is identified by typ.id (unique per $newType call); struct types without blank fields "
+                       "(blank-field witness replayed against native Go instead)",
                        "a loop body changes the ranged map only through store/delete (no reassignment is visible to the loop: `_ref` snapshot)",
                        "== on keys inside the generated programs (`$equal`) is correct (C06/C09 territory)"]
     chk.proof = C.check_proofs("C15", THEOREMS, tier)
